@@ -9,6 +9,10 @@
 //	direct <sep|eof> <k> <typ> <patterns> <toks> <cons> <errs> -> …|err=<failed calls>|w=<handler writes received>
 //	iqdirect <sep|eof> <typ> <patterns> <toks> <c> -> h=…@<payload>=<toks> | fallback@<to>/<from>/<id> | nothing | err
 //	register <patterns> <pattern> <nil>           -> ok | panic
+//	elem <ctor> <stanzaNS> <patterns> <toks> <cons> -> patterns of the handlers that ran | - | fallback@… | err   (elem.go)
+//	overlap <mode> <warm> <patterns> <toksA> <consA> <at> <pre> <toksB> <consB> -> <dispatch A>&<dispatch B>      (elem.go)
+//	cut <k> <typ> <patterns> <toks> <cons> <cut>  -> <calls>|fail                                                 (elem.go)
+//	direct … <errs> <parsemap> / iqdirect … <c> <parsemap> -> addrerr / err when jid.Parse rejects an own address (elem.go)
 //
 // <typ> of children / direct / iqdirect is what the specification (specHdr) reads from the
 // stanza's own, i.e. unqualified, attributes; the model reads the start element itself.
@@ -24,6 +28,7 @@ import (
 
 	"mellium.im/xmlstream"
 	"mellium.im/xmpp"
+	"mellium.im/xmpp/jid"
 	"mellium.im/xmpp/mux"
 	"mellium.im/xmpp/stanza"
 
@@ -438,8 +443,14 @@ type framedReader struct {
 	other   int         // writes through Encode / EncodeElement
 }
 
+var errBoom = fmt.Errorf("reader failed")
+
 func (f *framedReader) Token() (xml.Token, error) {
 	if f.i >= len(f.toks) {
+		if f.framing == "fail" {
+			// a reader whose connection broke: the same error on every further call
+			return nil, errBoom
+		}
 		return nil, io.EOF
 	}
 	t := f.toks[f.i]
@@ -1768,6 +1779,7 @@ func Run(r *common.Run) error {
 		}
 		c.children(dd, s, cons, "random")
 	}
+	c.runE()
 	return nil
 }
 
@@ -1897,7 +1909,53 @@ func (c *ctx) replay(lines []string) error {
 				}
 			}
 			c.hist(unfield(f[2]), ops, "replay")
+		case "elem":
+			if len(f) != 7 || i+1 >= len(lines) || !strings.HasPrefix(lines[i+1], "#elem ") {
+				continue
+			}
+			ps, err := decPats(f[4])
+			if err != nil {
+				return err
+			}
+			sx, _ := common.UnHex(strings.TrimPrefix(lines[i+1], "#elem "))
+			c.elem(f[2], unfield(f[3]), ps, string(sx), decInts(f[6]), "replay")
+		case "cut":
+			if len(f) != 8 || i+1 >= len(lines) || !strings.HasPrefix(lines[i+1], "#stanza ") {
+				continue
+			}
+			ps, err := decPats(f[4])
+			if err != nil {
+				return err
+			}
+			sx, _ := common.UnHex(strings.TrimPrefix(lines[i+1], "#stanza "))
+			var cut int
+			fmt.Sscan(f[7], &cut)
+			c.cutDispatch(ps, string(sx), decInts(f[6]), cut, nil, "replay")
+		case "overlap":
+			if len(f) != 11 || i+2 >= len(lines) || !strings.HasPrefix(lines[i+1], "#a ") || !strings.HasPrefix(lines[i+2], "#b ") {
+				continue
+			}
+			ps, err := decPats(f[4])
+			if err != nil {
+				return err
+			}
+			ax, _ := common.UnHex(strings.TrimPrefix(lines[i+1], "#a "))
+			bx, _ := common.UnHex(strings.TrimPrefix(lines[i+2], "#b "))
+			var warm, at, pre int
+			fmt.Sscan(f[3], &warm)
+			fmt.Sscan(f[7], &at)
+			fmt.Sscan(f[8], &pre)
+			c.overlap(f[2], warm, ps, string(ax), decInts(f[6]), at, pre, string(bx), decInts(f[10]), "replay")
 		case "iqdirect":
+			if len(f) == 8 && i+1 < len(lines) && strings.HasPrefix(lines[i+1], "#addr ") {
+				ps, err := decPats(f[4])
+				if err != nil {
+					return err
+				}
+				sx, _ := common.UnHex(strings.TrimPrefix(lines[i+1], "#addr "))
+				c.addrDirect(ps, string(sx), decInts(f[6]), f[2], "replay")
+				continue
+			}
 			if len(f) != 7 || i+1 >= len(lines) {
 				continue
 			}
@@ -1953,6 +2011,15 @@ func (c *ctx) replay(lines []string) error {
 			cons := decInts(f[6])
 			c.dispatch(ps, string(sx), cons, nil, "session", "replay")
 		case "direct":
+			if len(f) == 10 && i+1 < len(lines) && strings.HasPrefix(lines[i+1], "#addr ") {
+				ps, err := decPats(f[5])
+				if err != nil {
+					return err
+				}
+				sx, _ := common.UnHex(strings.TrimPrefix(lines[i+1], "#addr "))
+				c.addrDirect(ps, string(sx), decInts(f[7]), f[2], "replay")
+				continue
+			}
 			if len(f) != 9 || i+1 >= len(lines) || !strings.HasPrefix(lines[i+1], "#stanza ") {
 				continue
 			}
@@ -1997,7 +2064,7 @@ func leanBool(b bool) string {
 func Facts(repo string) (string, error) {
 	var sb strings.Builder
 	sb.WriteString("-- GENERATED by `harness facts C14`: the real mux options and lookups run on complete finite domains; do not edit.\n")
-	sb.WriteString("import XmppModel.Model.Mux\n")
+	sb.WriteString("import XmppModel.Model.Mux\nimport XmppModel.Model.MuxElem\n")
 	sb.WriteString("namespace XmppModel.Generated.C14\nopen XmppModel.Mux\n\n")
 	q := xml.Name{Space: "urn:a", Local: "x"}
 	found := func(ps []Pat, fn bool, kind, typ string) (res string) {
@@ -2223,6 +2290,144 @@ func Facts(repo string) (string, error) {
 		sb.WriteString("def fallbackTable : Option (List FallbackRow) := some [\n" + strings.Join(rows, ",\n") + "]\n\n")
 	} else {
 		sb.WriteString("def fallbackTable : Option (List FallbackRow) := none\n\n")
+	}
+	// ---- which stanza router an element reaches ------------------------------------------------
+	// every construction of the multiplexer value x the namespace given to New x element names over
+	// {none, the stanza namespaces, another} x {iq, message, presence, x}: the multiplexer holds the
+	// bare wildcard of every kind, the element carries type="get" and one child; the router is the
+	// kind of the handler that ran
+	rows = nil
+	ok = true
+	for _, ctor := range ctors {
+		for _, ns := range []string{"", c08.NSClient, c08.NSServer} {
+			for _, sp := range []string{"", c08.NSClient, c08.NSServer, "jabber:component:accept", "urn:a"} {
+				for _, local := range []string{"iq", "message", "presence", "x"} {
+					var seen []string
+					opts := []mux.Option{
+						mux.IQFunc(stanza.GetIQ, xml.Name{}, func(stanza.IQ, xmlstream.TokenReadEncoder, *xml.StartElement) error {
+							seen = append(seen, ".iq")
+							return nil
+						}),
+						mux.MessageFunc(stanza.NormalMessage, xml.Name{}, func(stanza.Message, xmlstream.TokenReadEncoder) error {
+							seen = append(seen, ".msg")
+							return nil
+						}),
+						mux.PresenceFunc(stanza.PresenceType("get"), xml.Name{}, func(stanza.Presence, xmlstream.TokenReadEncoder) error {
+							seen = append(seen, ".pres")
+							return nil
+						}),
+					}
+					pn := ""
+					var m *mux.ServeMux
+					if ctor == "zero" || ctor == "value" {
+						m, pn = buildCtor(ctor, "", opts)
+					} else {
+						m, pn = buildCtor(ctor, ns, opts)
+					}
+					if pn == "" {
+						pn = common.Recover(func() {
+							name := xml.Name{Space: sp, Local: local}
+							start := xml.StartElement{Name: name, Attr: []xml.Attr{{Name: xml.Name{Local: "type"}, Value: "get"}}}
+							_ = m.HandleXMPP(&framedReader{toks: []xml.Token{xml.StartElement{Name: q}, xml.EndElement{Name: q}, xml.EndElement{Name: name}}, framing: "sep"}, &start)
+						})
+					}
+					out := ".nop"
+					switch {
+					case pn != "" || len(seen) > 1:
+						ok = false
+					case len(seen) == 1:
+						out = seen[0]
+					}
+					rows = append(rows, fmt.Sprintf("  ⟨.%s, %s, ⟨%s, %s⟩, %s⟩", ctor, leanStr(ns), leanStr(sp), leanStr(local), out))
+				}
+			}
+		}
+	}
+	sb.WriteString("/-- (construction, namespace given to New, element name, the stanza router the element reached) -/\n")
+	if ok {
+		sb.WriteString("def routeTable : Option (List RouteRow) := some [\n" + strings.Join(rows, ",\n") + "]\n\n")
+	} else {
+		sb.WriteString("def routeTable : Option (List RouteRow) := none\n\n")
+	}
+	// ---- own addresses ---------------------------------------------------------------------------
+	// jid.Parse's verdicts on the address forms of the probe, and what the real multiplexer does with a
+	// stanza of every kind x to x from over {absent} + those forms: an error and no handler, or the
+	// header of the stanza value the wildcard handler is handed
+	forms := []string{"a@example.org/r", "A@EXAMPLE.org/R", "b@Example.NET", "@@", "a@/r", "example.org", ""}
+	var prow []string
+	for _, f := range forms {
+		if f == "" {
+			continue
+		}
+		if j, err := jid.Parse(f); err != nil {
+			prow = append(prow, fmt.Sprintf("(%s, none)", leanStr(f)))
+		} else {
+			prow = append(prow, fmt.Sprintf("(%s, some %s)", leanStr(f), leanStr(j.String())))
+		}
+	}
+	sb.WriteString("/-- the verdicts of the real jid.Parse on the address forms of the probe -/\ndef parseTable : Option (List (String × Option String)) := some [" + strings.Join(prow, ", ") + "]\n\n")
+	opts := []*string{nil}
+	for i := range forms {
+		opts = append(opts, &forms[i])
+	}
+	rows = nil
+	ok = true
+	for _, kind := range []string{"i", "m", "p"} {
+		local := map[string]string{"i": "iq", "m": "message", "p": "presence"}[kind]
+		for _, to := range opts {
+			for _, from := range opts {
+				as := []xml.Attr{{Name: xml.Name{Local: "id"}, Value: "p1"}}
+				if to != nil {
+					as = append(as, xml.Attr{Name: xml.Name{Local: "to"}, Value: *to})
+				}
+				if from != nil {
+					as = append(as, xml.Attr{Name: xml.Name{Local: "from"}, Value: *from})
+				}
+				var seen []hdr
+				var herr error
+				wrote := 0
+				pn := common.Recover(func() {
+					var o mux.Option
+					switch kind {
+					case "i":
+						o = mux.IQFunc(stanza.IQType(""), xml.Name{}, func(v stanza.IQ, _ xmlstream.TokenReadEncoder, _ *xml.StartElement) error {
+							seen = append(seen, hdr{string(v.Type), v.ID, v.To.String(), v.From.String()})
+							return nil
+						})
+					case "m":
+						o = mux.MessageFunc(stanza.NormalMessage, xml.Name{}, func(v stanza.Message, _ xmlstream.TokenReadEncoder) error {
+							seen = append(seen, hdr{string(v.Type), v.ID, v.To.String(), v.From.String()})
+							return nil
+						})
+					default:
+						o = mux.PresenceFunc(stanza.PresenceType(""), xml.Name{}, func(v stanza.Presence, _ xmlstream.TokenReadEncoder) error {
+							seen = append(seen, hdr{string(v.Type), v.ID, v.To.String(), v.From.String()})
+							return nil
+						})
+					}
+					m := mux.New(c08.NSClient, o)
+					name := xml.Name{Space: c08.NSClient, Local: local}
+					start := xml.StartElement{Name: name, Attr: as}
+					fr := &framedReader{toks: []xml.Token{xml.StartElement{Name: q}, xml.EndElement{Name: q}, xml.EndElement{Name: name}}, framing: "sep"}
+					herr = m.HandleXMPP(fr, &start)
+					wrote = fr.wrote
+				})
+				res := "none"
+				switch {
+				case pn != "" || wrote > 0 || len(seen) > 1 || (herr == nil) != (len(seen) == 1):
+					ok = false
+				case len(seen) == 1:
+					res = "some " + leanHdr(seen[0])
+				}
+				rows = append(rows, fmt.Sprintf("  ⟨%s, %s, %s⟩", leanKind(kind), leanAttrs(as), res))
+			}
+		}
+	}
+	sb.WriteString("/-- (kind, attributes of the start element, none = an error and no handler / the header of the stanza value) -/\n")
+	if ok {
+		sb.WriteString("def addrTable : Option (List AddrRow) := some [\n" + strings.Join(rows, ",\n") + "]\n\n")
+	} else {
+		sb.WriteString("def addrTable : Option (List AddrRow) := none\n\n")
 	}
 	sb.WriteString("end XmppModel.Generated.C14\n")
 	return sb.String(), nil
